@@ -130,16 +130,16 @@ const P14: &str = "C14";
 const P15: &str = "C15";
 const P16: &str = "C16";
 
-struct Run {
-    app: SimApp,
+pub struct Run {
+    pub app: SimApp,
     addrs: Vec<String>,      // delegators + extra accounts
     validators: Vec<String>, // real validators
     contract0: bool,
     rates: Vec<u128>, // apr*(1-c) in 1e-8 per validator
     m: SModel,
     stats: RunStats,
-    dig: Fnv,
-    viol: Vec<Violation>,
+    pub dig: Fnv,
+    pub viol: Vec<Violation>,
     unbonding: u64,
     nid: u32,
 }
@@ -833,7 +833,7 @@ impl Run {
         self.check_state(&format!("block update (+{} s)", dt));
     }
 
-    fn step(&mut self, op: &SOp) {
+    pub fn step(&mut self, op: &SOp) {
         let nd = self.m.withdraw_to.len().min(self.addrs.len());
         let ndel = nd.min(self.m.slashes.len().max(nd));
         let _ = ndel;
@@ -866,7 +866,7 @@ impl Run {
     }
 }
 
-fn build(case: &Case) -> Run {
+pub fn build(case: &Case) -> Run {
     let world = World::new();
     set_current_world(Some(world.clone()));
     let prefix: &'static str = PREFIXES[case.prefix as usize % PREFIXES.len()];
